@@ -9,7 +9,7 @@ Ints == {Atom("int", v) : v \in InInts \cup OutInts}
 Floats == {Atom("float", v) : v \in InFloats \cup OutFloats}
 Strs == {Atom("str", v) : v \in InStrs \cup OutStrs}
 Bytes == {Atom("bytes", v) : v \in InBytes \cup OutBytes}
-Misc == {Atom("bool", "T"), Atom("bool", "F"), Atom("none", ""), Atom("bad", "complex"), Atom("bad", "object"), Atom("enum", "Color.RED"), Atom("enum", "Shape.CIRCLE")}
+Misc == {Atom("bool", "T"), Atom("bool", "F"), Atom("none", ""), Atom("bad", "complex"), Atom("bad", "object"), Atom("enum", "Color.RED"), Atom("enum", "Shape.CIRCLE"), Atom("enum", "Facing.NORTH")}
 Atoms == Ints \cup Floats \cup Strs \cup Bytes \cup Misc
 Reps == {Atom("int", "128"), Atom("int", "-2147483649"), Atom("float", "0.1"), Atom("str", "multibyte"), Atom("bytes", "00ff"), Atom("none", ""), Atom("bool", "T"),
          Atom("enum", "Color.RED"), Atom("int", "9223372036854775808")}
